@@ -209,6 +209,12 @@ fn oracle_inner(c: &Case) -> Expect {
     }
     // input
     let delivered = match c.input_via.as_str() {
+        // `-f ''`: the empty file name never names a readable file (stdin holds a decoy)
+        "file_empty_name" => return Expect::Failure("input file name is empty".into()),
+        // `-f /dev/stdin`: a readable non-regular file; same bytes as the stdin case
+        "file_devstdin" => Ok(c.input.clone()),
+        // `-f <fifo>`: a named pipe fed by a writer; same bytes
+        "file_fifo" => Ok(c.input.clone()),
         // `-f -`: a file literally named "-" in the working directory (stdin holds a decoy)
         "file_dash" => {
             if c.real_fs.iter().any(|x| x == "input_missing") {
@@ -312,6 +318,20 @@ fn run_case(env: &Env, c: &Case, tag: &str) -> Result<Obs, String> {
         }
         opt(&mut flags, "-e", "--expr-file", &expr_path);
     }
+    let fifo_path = format!("{}/in.fifo", dir);
+    if c.input_via == "file_empty_name" {
+        opt(&mut flags, "-f", "--filename", "");
+    }
+    if c.input_via == "file_devstdin" {
+        opt(&mut flags, "-f", "--filename", "/dev/stdin");
+    }
+    if c.input_via == "file_fifo" {
+        let st = Command::new("mkfifo").arg(&fifo_path).status().map_err(|e| format!("mkfifo: {}", e))?;
+        if !st.success() {
+            return Err("mkfifo failed".into());
+        }
+        opt(&mut flags, "-f", "--filename", &fifo_path);
+    }
     if c.input_via == "file_dash" {
         if !c.real_fs.iter().any(|x| x == "input_missing") {
             std::fs::write(format!("{}/-", dir), &c.input).map_err(|e| e.to_string())?;
@@ -356,10 +376,10 @@ fn run_case(env: &Env, c: &Case, tag: &str) -> Result<Obs, String> {
     let pipe_stdin = c.input_via == "stdin_pipe";
     if pipe_stdin {
         cmd.stdin(Stdio::piped());
-    } else if c.input_via == "stdin_file" {
+    } else if c.input_via == "stdin_file" || c.input_via == "file_devstdin" {
         std::fs::write(&stdin_path, &c.input).map_err(|e| e.to_string())?;
         cmd.stdin(std::fs::File::open(&stdin_path).map_err(|e| e.to_string())?);
-    } else if c.input_via == "file_dash" {
+    } else if c.input_via == "file_dash" || c.input_via == "file_empty_name" {
         // a decoy on stdin: a jp that takes "-" to mean stdin would happily succeed on it
         std::fs::write(&stdin_path, b"{\"decoy\": true, \"a\": [1], \"xs\": [], \"u\": \"decoy\"}").map_err(|e| e.to_string())?;
         cmd.stdin(std::fs::File::open(&stdin_path).map_err(|e| e.to_string())?);
@@ -367,6 +387,41 @@ fn run_case(env: &Env, c: &Case, tag: &str) -> Result<Obs, String> {
         cmd.stdin(Stdio::null());
     }
     let mut child = cmd.spawn().map_err(|e| format!("spawn {}: {}", env.jp, e))?;
+    let mut fifo_writer = None;
+    let fifo_stop = std::sync::Arc::new(std::sync::atomic::AtomicBool::new(false));
+    if c.input_via == "file_fifo" {
+        let data = c.input.clone();
+        let fp = fifo_path.clone();
+        let stop = fifo_stop.clone();
+        fifo_writer = Some(std::thread::spawn(move || {
+            // non-blocking open in a retry loop: if jp never opens the FIFO (bad expression,
+            // --ast) this must not hang
+            use std::os::unix::fs::OpenOptionsExt;
+            let t0 = Instant::now();
+            let stopped = || stop.load(std::sync::atomic::Ordering::Relaxed);
+            while t0.elapsed() < Duration::from_secs(25) && !stopped() {
+                match std::fs::OpenOptions::new().write(true).custom_flags(0o4000 /* O_NONBLOCK */).open(&fp) {
+                    Ok(mut f) => {
+                        // the pipe holds 64 KiB; larger inputs are written as the reader drains it
+                        let mut off = 0;
+                        let mut spins = 0;
+                        while off < data.len() && spins < 200000 && t0.elapsed() < Duration::from_secs(25) && !stopped() {
+                            match f.write(&data[off..]) {
+                                Ok(n) => off += n,
+                                Err(e) if e.kind() == std::io::ErrorKind::WouldBlock => {
+                                    spins += 1;
+                                    std::thread::sleep(Duration::from_micros(50));
+                                }
+                                Err(_) => break,
+                            }
+                        }
+                        return;
+                    }
+                    Err(_) => std::thread::sleep(Duration::from_micros(500)),
+                }
+            }
+        }));
+    }
     let mut writer = None;
     if pipe_stdin {
         let mut sin = child.stdin.take().unwrap();
@@ -415,6 +470,11 @@ fn run_case(env: &Env, c: &Case, tag: &str) -> Result<Obs, String> {
         }
     };
     if let Some(w) = writer {
+        let _ = w.join();
+    }
+    if let Some(w) = fifo_writer {
+        // jp is gone: tell a writer that is still waiting for a reader to give up
+        fifo_stop.store(true, std::sync::atomic::Ordering::Relaxed);
         let _ = w.join();
     }
     let stdout = t_out.join().unwrap_or_default();
@@ -751,7 +811,12 @@ fn gen_expr(r: &mut Rng, base: &J) -> (Vec<u8>, &'static str) {
 fn gen_plan(r: &mut Rng, c: &Case) -> Vec<String> {
     let mut plan = vec![];
     let in_target = if c.input_via == "file" { "in.json" } else { "stdin" };
-    let mut targets = if c.input_via == "file_dash" { vec![] } else { vec![in_target] };
+    let mut targets = match c.input_via.as_str() {
+        "file_dash" | "file_empty_name" | "file_fifo" => vec![],
+        // /dev/stdin is opened as a path: reads on that descriptor are not the shim's fd 0
+        "file_devstdin" => vec![],
+        _ => vec![in_target],
+    };
     if c.expr_via == "file" {
         targets.push("expr.txt");
     }
@@ -837,6 +902,8 @@ fn gen_case(seed: u64, discovered: &BTreeSet<String>) -> Case {
         input,
         input_via: if r.chance(1, 30) {
             "file_dash".to_string()
+        } else if r.chance(1, 30) {
+            (*r.pick(&["file_empty_name", "file_devstdin", "file_fifo"])).to_string()
         } else {
             (*r.pick(&["stdin_file", "stdin_file", "stdin_pipe", "file", "file"])).to_string()
         },
@@ -851,6 +918,12 @@ fn gen_case(seed: u64, discovered: &BTreeSet<String>) -> Case {
         expr_class: expr_class.into(),
         input_class: input_class.into(),
     };
+    if c.input_via == "file_empty_name" {
+        // clap's treatment of an empty option value (it may take the next argument as the
+        // value) is not jp's business; keep the case to what the statement covers: an
+        // unreadable input, which must fail
+        c.ast = false;
+    }
     if r.chance(1, 40) && expr_utf8_argv_ok {
         c.illegal = (*r.pick(&["both_expr_sources", "no_expr"])).to_string();
         c.expr_via = "argv".into();
